@@ -213,6 +213,15 @@ def build(tier):
         # interrupting operations that write to the directory (lock, release, cleanup); empty legacy file and the
         # cleanup-as-interrupted-operation rows are left to the thorough tier
         combos = [(p, a, b) for (p, a, b) in combos if b in (0, 1, 3) and p != 3 and a != 3]
+        # measured on an idle machine: these do not finish within 900 s / 16 GB (the interrupting lock/release is
+        # inlined at every file-system call of the interrupted lock/release); they stay in the thorough tier
+        def heavy(p, a, b):
+            if PRES[p] == 'dead_owner' and (OPS[a] in ('lock', 'release') or (OPS[a] == 'is_locked' and OPS[b] == 'cleanup')):
+                return True
+            if (PRES[p], OPS[a], OPS[b]) in (('dead_owner', 'is_locked', 'release'), ('held_by_self', 'lock', 'lock'), ('held_by_live_other', 'is_locked', 'release')):
+                return True   # > 450 s each when 8 harnesses run in parallel
+            return OPS[a] in ('lock', 'release') and OPS[b] in ('lock', 'release') and PRES[p] != 'held_by_self'
+        combos = [(p, a, b) for (p, a, b) in combos if not heavy(p, a, b)]
     for pre, a, b in combos:
         name = f'sched_{PRES[pre]}_{OPS[a]}_by_{OPS[b]}'
         h = Harness(name, unwind=6, stubs=stubs, timeout=900 if tier == 'quick' else 2400,
